@@ -108,6 +108,7 @@ type VC struct {
 	needStrOf     bool
 	entryLines    int
 	regionStart   int
+	curClosure    *ssa.MakeClosure
 	regionAncestors map[int][][2]int // region start line -> line ranges of the enclosing loop headers' assumptions
 	curGroup      string
 	noSlice       bool
@@ -582,8 +583,8 @@ func (vc *VC) load(st State, ref Term, t types.Type) Term {
 			if cond.S == "true" && (ti.kind == "ref" || ti.kind == "slice") {
 				vc.preExisting[v.S] = true
 			}
-		} else if ti.kind == "ref" || ti.kind == "slice" {
-			// a pointer found in the entry memory points to something that existed at entry
+		} else if (ti.kind == "ref" || ti.kind == "slice") && vc.preExistingRef(ref) {
+			// a pointer found in a cell that existed at entry, unchanged since, points to something that existed at entry
 			vc.preExisting[v.S] = true
 		}
 	}
@@ -591,7 +592,9 @@ func (vc *VC) load(st State, ref Term, t types.Type) Term {
 		inv := vc.typeInv(v, t)
 		// what a cell points to was allocated before now; for the entry memory: before entry
 		bound := st.get(vc, "$alloc")
-		if name := vc.memName(ti); st.get(vc, name).S == vc.entryTerm(name).S {
+		if name := vc.memName(ti); st.get(vc, name).S == vc.entryTerm(name).S && vc.preExistingRef(ref) {
+			// (only for cells that themselves existed at entry: cells of objects allocated later
+			// live in the same array version until first written)
 			bound = vc.entryTerm("$alloc")
 		}
 		if ti.kind == "ref" {
